@@ -117,7 +117,7 @@ theorem c12_time_exact (rfc : String → Option Int) (doc : JIn) : timeOK rfc do
   cases doc with
   | atom a =>
     cases a with
-    | int n => by_cases h : int64Min ≤ n ∧ n ≤ int64Max <;> simp [h]
+    | int n => by_cases h : int64Min ≤ n ∧ n ≤ timeMax <;> simp [h]
     | float t ok => cases ok <;> simp
     | str s => cases h : rfc s <;> simp [h]
     | _ => simp
@@ -372,27 +372,30 @@ theorem F64.bne_self (a : F64) : (a != a) = a.nan := by
   show (!(!a.nan && !a.nan && a.floor == a.floor && a.frac == a.frac)) = a.nan
   cases a.nan <;> simp
 
+/-! atomic facts about the comparisons the range guard of `Time.UnmarshalJSON` is made of (whatever their order, polarity or
+    nesting in the Go text) -/
+theorem c12_two63 : GoX.shl 1 63 = 9223372036854775808 := by decide
+theorem F64.neg_int (n : Int) : -({ floor := n } : F64) = { floor := -n } := rfl
+theorem F64.ge_int (a : F64) (n : Int) : decide (a ≥ ({ floor := n } : F64)) = (!a.nan && decide (n ≤ a.floor)) := by
+  show decide (F64.le { floor := n } a = true) = _
+  rw [Bool.eq_iff_iff]; cases h : a.nan <;> simp [F64.le, h] <;> omega
+theorem F64.lt_int (a : F64) (n : Int) : decide (a < ({ floor := n } : F64)) = (!a.nan && decide (a.floor < n)) := by
+  show decide (F64.lt a { floor := n } = true) = _
+  rw [Bool.eq_iff_iff]; cases h : a.nan <;> simp [F64.lt, h]
+theorem F64.toInt64_mk (fl : Int) (fr nan : Bool) :
+    F64.toInt64 { floor := fl, frac := fr, nan := nan } = if fl < 0 ∧ fr = true then fl + 1 else fl := rfl
+theorem F64.inTime_mk (fl : Int) (fr nan : Bool) :
+    F64.inTime { floor := fl, frac := fr, nan := nan } =
+      (!nan && decide (-9223372036854775808 ≤ fl) && decide (fl ≤ 9223371974719179007)) := rfl
+
 set_option linter.unusedSimpArgs false in
-theorem time_guard (x : F64) :
-    (x != x || decide (x ≥ ({ floor := GoX.shl 1 63 } : F64)) || decide (x < -({ floor := GoX.shl 1 63 } : F64))) = !F64.inInt64 x := by
-  have h63 : GoX.shl 1 63 = 9223372036854775808 := by decide
-  have hneg : -({ floor := GoX.shl 1 63 } : F64) = { floor := -9223372036854775808 } := by rw [h63]; rfl
-  rw [F64.decide_ge, F64.decide_lt, F64.bne_self, hneg, h63]
-  rcases x with ⟨fl, fr, nan⟩
-  have hmin : int64Min = -9223372036854775808 := rfl
-  have hmax : int64Max = 9223372036854775807 := rfl
-  rw [Bool.eq_iff_iff]
-  cases nan <;> cases fr <;>
-    simp only [F64.le, F64.lt, F64.inInt64, Bool.or_eq_true, Bool.and_eq_true, Bool.not_eq_true', decide_eq_true_eq, beq_iff_eq,
-      Bool.not_true, Bool.not_false, Bool.false_eq_true, decide_eq_false_iff_not, Bool.and_eq_false_imp, Bool.or_false, Bool.and_true,
-      and_true, true_and, false_and, and_false, or_false, false_or, or_true, true_iff, not_false_eq_true, implies_true, hmin, hmax] <;>
-    (first | omega | simp)
-/-- `Time.UnmarshalJSON`, for every document and every answer of `time.Parse` -/
+/-- `Time.UnmarshalJSON`, for every document and every answer of `time.Parse`: a number is decoded exactly when it is one of
+    the instants `oidc.Time` stands for (`F64.inTime`: int64 AND no wrap-around in `time.Unix`), every other number is refused -/
 theorem c12_time_exact_gen (now : Int) (o : Oracles) (ts0 : Int) (data : String) :
     GenCodec.TimeUnmarshalJSON now o ts0 data =
       match o.jsonAny data with
       | .error _ => .error "error:oidc.Time: %w"
-      | .ok (.num x) => if F64.inInt64 x = true then .ok x.toInt64 else .error "error:oidc.Time: value %v out of range"
+      | .ok (.num x) => if F64.inTime x = true then .ok x.toInt64 else .error "error:oidc.Time: value %v out of range"
       | .ok (.str s) => (match o.timeParse s with | .ok t => .ok (Go.fromTime t) | .error _ => .error "error:oidc.Time: %w")
       | .ok .null => .ok 0
       | .ok _ => .error "error:oidc.Time: unable to parse type %T with value %v" := by
@@ -402,16 +405,33 @@ theorem c12_time_exact_gen (now : Int) (o : Oracles) (ts0 : Int) (data : String)
   | ok doc =>
     cases doc with
     | num x =>
-      simp only [time_guard]
-      cases hx : F64.inInt64 x <;> simp
+      rcases x with ⟨fl, fr, nan⟩
+      simp only [c12_two63, F64.neg_int, F64.bne_self, F64.ge_int, F64.lt_int, F64.toInt64_mk, F64.inTime_mk]
+      cases nan <;> go_leaf
     | str s => simp only []; cases o.timeParse s <;> rfl
     | _ => rfl
+
+/-- no number the regenerated decoder hands out lies in the zone `time.Unix` wraps around (last 62135596800 seconds of int64) -/
+theorem c12_time_never_in_wrap_zone (now : Int) (o : Oracles) (ts0 : Int) (data : String) (x : F64) (v : Int)
+    (hj : o.jsonAny data = .ok (.num x)) (hv : GenCodec.TimeUnmarshalJSON now o ts0 data = .ok v) :
+    int64Min ≤ v ∧ v ≤ timeMax ∧ v = x.toInt64 := by
+  rw [c12_time_exact_gen, hj] at hv
+  cases hin : F64.inTime x with
+  | false => simp [hin] at hv
+  | true =>
+    simp only [hin, if_true, Except.ok.injEq] at hv
+    subst hv
+    rcases x with ⟨fl, fr, nan⟩
+    simp only [F64.inTime_mk, Bool.and_eq_true, Bool.not_eq_true', decide_eq_true_eq] at hin
+    simp only [F64.toInt64_mk]
+    unfold int64Min timeMax
+    refine ⟨?_, ?_, trivial⟩ <;> split <;> omega
 
 theorem c12_time_monitor (now : Int) (o : Oracles) (data : String) (doc : JVal) (h : o.jsonAny data = .ok doc) :
     timeOKJ o.timeParse doc (outR (GenCodec.TimeUnmarshalJSON now o 0 data)) = true := by
   rw [c12_time_exact_gen, h]
   cases doc with
-  | num x => cases hx : F64.inInt64 x <;> simp [timeOKJ, outR, hx]
+  | num x => cases hx : F64.inTime x <;> simp [timeOKJ, outR, hx]
   | str s => simp only []; cases ht : o.timeParse s <;> simp [timeOKJ, outR, ht]
   | _ => simp [timeOKJ, outR]
 
@@ -867,7 +887,7 @@ theorem c12_seal_roundtrip_gen (now : Int) (o : Oracles) (plain key : Bytes) (E 
 def toAtom : JVal → JAtom
   | .null => .null
   | .bool b => .bool b
-  | .num x => .float x.toInt64 (F64.inInt64 x)
+  | .num x => .float x.toInt64 (F64.inTime x)
   | .str s => .str s
   | .arr _ => .obj
   | .obj _ => .obj
@@ -901,7 +921,7 @@ theorem c12_time_bridge (now : Int) (o : Oracles) (data : String) (doc : JVal) (
       decodeTime (fun s => match o.timeParse s with | .ok t => some (Go.fromTime t) | .error _ => none) (toJIn doc) := by
   rw [c12_time_exact_gen, h]
   cases doc with
-  | num x => simp only [toJIn, toAtom, decodeTime]; cases F64.inInt64 x <;> rfl
+  | num x => simp only [toJIn, toAtom, decodeTime]; cases F64.inTime x <;> rfl
   | str s => simp only [toJIn, toAtom, decodeTime]; cases o.timeParse s <;> rfl
   | _ => rfl
 
@@ -924,6 +944,12 @@ example : outR (GenCodec.LocalesUnmarshalJSON 0 { jsonAny := fun _ => .ok (.arr 
 example : outR (GenCodec.AudienceUnmarshalJSON 0 { jsonAny := fun _ => .ok (.arr [.str "a", .num { floor := 1 }]) } [] "…") = .err := by decide
 example : outR (GenCodec.TimeUnmarshalJSON 0 { jsonAny := fun _ => .ok (.num { floor := -2, frac := true }) } 0 "-1.5") = .val (-1) := by decide
 example : outR (GenCodec.TimeUnmarshalJSON 0 { jsonAny := fun _ => .ok (.num { floor := 9223372036854775808 }) } 0 "9223372036854775808") = .err := by decide
+/-- F-C01a: the last second `time.Unix` does not wrap around is decoded, the next one (and `9223372036854774784`) refused -/
+example : outR (GenCodec.TimeUnmarshalJSON 0 { jsonAny := fun _ => .ok (.num { floor := 9223371974719179007 }) } 0 "") = .val 9223371974719179007 := by decide
+example : outR (GenCodec.TimeUnmarshalJSON 0 { jsonAny := fun _ => .ok (.num { floor := 9223371974719179008 }) } 0 "") = .err := by decide
+example : outR (GenCodec.TimeUnmarshalJSON 0 { jsonAny := fun _ => .ok (.num { floor := 9223372036854774784 }) } 0 "9223372036854774784") = .err := by decide
+example : outR (GenCodec.TimeUnmarshalJSON 0 { jsonAny := fun _ => .ok (.num { floor := -9223372036854775808 }) } 0 "") = .val (-9223372036854775808) := by decide
+example : outR (GenCodec.TimeUnmarshalJSON 0 { jsonAny := fun _ => .ok (.num { floor := -9223372036854775809 }) } 0 "") = .err := by decide
 example : outR (GenCodec.unmarshalJSONMulti 0 { unmarshalInto := fun _ d => if d == 0 then .error "json" else .ok () } "{}" [0, 1]) = .err := by decide
 example : outR (GenCodec.mergeAndMarshalClaims 0 {} { enc := .ok [("iss", "\"op\""), ("locale", "null")] } [("locale", "\"de-AAAA\""), ("x", "1")]).2
     = .val [[("locale", "null"), ("x", "1"), ("iss", "\"op\"")]] := by decide
